@@ -372,7 +372,7 @@ class Inliner:
             return None
         return prefix, loop
 
-    def _expand_for(self, st: ast.stmt, caller_names: Set[str], stack: Tuple[str, ...]) -> Optional[List[ast.stmt]]:
+    def _expand_for(self, st: ast.stmt, caller_names: Set[str], stack: Tuple[str, ...], allow_direct: bool = True) -> Optional[List[ast.stmt]]:
         if not isinstance(st, ast.For) or not isinstance(st.iter, ast.Call):
             return None
         name = self._callee(st.iter)
@@ -397,7 +397,7 @@ class Inliner:
         # simply becomes the caller's name (no alias assignment): guards on it are then guards on the caller's variable
         yvals = [self._yield_stmt(x) for x in ast.walk(loop) if isinstance(x, ast.stmt) and self._yield_stmt(x) is not None]
         direct = None
-        if isinstance(st.target, ast.Name) and yvals and all(isinstance(v, ast.Name) and v.id == yvals[0].id for v in yvals):  # type: ignore[union-attr]
+        if allow_direct and isinstance(st.target, ast.Name) and yvals and all(isinstance(v, ast.Name) and v.id == yvals[0].id for v in yvals):  # type: ignore[union-attr]
             yv = yvals[0].id  # type: ignore[union-attr]
             params = {x.arg for x in h.args.args + h.args.kwonlyargs}
             if yv in hl and yv not in params and (st.target.id not in hl or st.target.id == yv):
@@ -446,7 +446,8 @@ class Inliner:
         loop = ast.copy_location(ast.For(target=ast.Name(id=tgt.id, ctx=ast.Store()), iter=g, body=[ast.copy_location(ast.Break(), st)], orelse=[], lineno=st.lineno), st)
         ast.fix_missing_locations(init)
         ast.fix_missing_locations(loop)
-        ex = self._expand_for(loop, caller_names, stack)
+        # no direct renaming here: after the loop the target must hold the first YIELDED value or the default, not the last iterated one
+        ex = self._expand_for(loop, caller_names, stack, allow_direct=False)
         if ex is None:
             return None
         return [init] + ex
